@@ -11,7 +11,7 @@ tab = subprocess.check_output(["python3", os.path.join(HERE, "tools", "mutant_ta
 i = s.index("| mutant | file | caught by | violation class reported | what it is |")
 j = s.index("\n\n", i)
 open(p, "w").write(s[:i] + tab + s[j:])
-rows = [l for l in tab.splitlines() if re.match(r"\| C\d\d-[A-H] ", l)]
+rows = [l for l in tab.splitlines() if re.match(r"\| C\d\d-[A-I] ", l)]
 c = collections.Counter()
 for l in rows:
     cells = [x.strip() for x in l.split("|")]
@@ -19,7 +19,7 @@ for l in rows:
     own = mid[:3]
     k = "withdrawn" if caught.startswith("withdrawn") else "missed" if "missed" in caught else "own quick" if (own + " quick") in caught \
         else "own thorough" if (own + " thorough") in caught else "sibling only"
-    c[("wave 4" if mid[-1] in "GH" else "waves 1-3", k)] += 1
+    c[("wave 5" if mid[-1] == "I" else "wave 4" if mid[-1] in "GH" else "waves 1-3", k)] += 1
 print(len(rows), "rows")
 for k, v in sorted(c.items()):
     print(k, v)
